@@ -72,7 +72,12 @@ class ScratchDB:
                 if value is not DELETED:
                     self.wrapped_db[key] = value
                 elif do_deletes:
-                    self.wrapped_db.pop(key, None)
+                    # not every wrapped database is a dict with a pop() method: a
+                    # batch opened on a batch trie wraps another ScratchDB
+                    try:
+                        del self.wrapped_db[key]
+                    except KeyError:
+                        pass
                 # if do_deletes is False, ignore deletes to underlying db
         finally:
             self.cache = {}
